@@ -464,6 +464,117 @@ Proof.
            intros <-. by apply (vstr_not_key h S x d vb e vb HA2 Hxd Hr Hv He' Hb).
 Qed.
 
+(** * replace_item_in_object with a NULL object: the C code gives the replacement its new key
+      (copy of the name, old owned key released) BEFORE it notices that there is nothing to replace;
+      the result is false, every container is unchanged, the replacement is re-keyed *)
+Definition del_keys (bs : list positive) (m : gmap positive bytes) : gmap positive bytes :=
+  match bs with [] => m | k :: _ => delete k m end.
+Definition spec_rekey_only (S : astate2) (nb r : positive) : astate2 :=
+  match find_tree r (a_forest S), a_str S !! nb with
+  | Some n0, Some s =>
+      let nk := nxt S in
+      let d' := rd_owned_key (tdata n0) nk in
+      mk3 (set_data r d' (a_forest S)) (Pos.succ nk) (Datatypes.S (req S))
+          (del_keys (old_key (tdata n0)) (<[nk := cstr s ++ [0]]> (a_str S))) (a_foreign S)
+  | _, _ => S
+  end.
+
+Lemma old_key_cases d : old_key d = [] \/ exists k, old_key d = [k] /\ rd_key d = Some k /\ is_const d = false.
+Proof.
+  unfold old_key. destruct (is_const d); [by left|]. destruct (rd_key d) as [k|]; [|by left]. right. by exists k.
+Qed.
+
+Lemma Step_replace_null_object S nb r cs :
+  is_Some (find_tree r (a_forest S)) -> name_ok S (Some nb) ->
+  Step (replace_item_in_object nv None (Some nb) (Some r) cs) S (spec_rekey_only S nb r) false.
+Proof.
+  intros [n0 Hr] (nb' & s & [= <-] & Hs & Hz). apply Step_intro; [auto with cons|]. intros h HA. pose proof HA as [HA2 K].
+  pose proof HA2 as ((W & NL & Hnext & Hreq) & Hstr & [SI1 SI2] & KO).
+  pose proof (wf_nodup _ _ W) as ND.
+  pose proof (find_tree_shape _ _ _ Hr) as Hsh. set (d := tdata n0) in *. set (crs := tchildren n0) in *. rewrite Hsh in Hr.
+  unfold spec_rekey_only. rewrite Hr, Hs. cbn [tdata]. unfold nxt, req. rewrite <- Hnext, <- Hreq.
+  set (nk := h_next h). set (d' := rd_owned_key d nk). set (c := cstr s ++ [0]). set (F := a_forest S) in *.
+  change (as_forest (a_st S)) with F in *.
+  assert (Hin : T r d crs ∈ nodes F) by (by apply find_tree_Some in Hr as [? _]).
+  destruct (flat_set_data F r d crs ND Hin) as (FL & E1 & E2).
+  set (ha := alloc_str h c). pose proof (WF_alloc_str h F c W) as Wa. fold ha in Wa.
+  set (hb := free_all (old_key d) ha).
+  set (h2 := set_dat hb (<[r := mk_dat d' (tid <$> crs)]> (h_dat hb))).
+  assert (Hrd : CoreRefineObject.Readable h nb).
+  { split; [by apply (SI1 _ _ Hs)|]. exists s. by rewrite Hstr. }
+  assert (Hsh2 : h_str h !! nb = Some s) by (by rewrite Hstr).
+  (* the run *)
+  assert (E : replace_item_in_object nv None (Some nb) (Some r) cs h = Ret (false, h2)).
+  { unfold replace_item_in_object. cbn [is_null orb].
+    rewrite (bindM_Ret _ _ _ _ _ (CoreRefineAddObject.cJSON_strdup_ok nv h nb s Hrd Hsh2 eq_refl)). cbn [is_null].
+    fold c ha nk. rewrite (rekey_run2 _ ha F r d (tid <$> crs) (Some nk) Wa (elem_of_flat _ _ Hin)).
+    reflexivity. }
+  exists h2. split; [exact E|].
+  (* the state after re-keying *)
+  assert (Hnewk : old_key d' = [nk]) by (unfold old_key, d'; by rewrite is_const_set_key_clear).
+  assert (W2 : WF h2 (set_data r d' F)).
+  { eapply (rekey_WF ha F _ r d d' _ FL Wa E1 (E2 d')); try done.
+    - by rewrite roots_set_data.
+    - apply is_ref_set_key_clear.
+    - intros b Hb. rewrite Hnewk in Hb. apply elem_of_list_singleton in Hb as ->. split_and!.
+      + intros Hin'. exact (Pos.lt_irrefl _ (wf_fresh _ _ W _ Hin')).
+      + unfold ha. cbn. set_solver.
+      + unfold ha. cbn. by rewrite lookup_insert.
+      + unfold ha. cbn. apply Pos.lt_succ_diag_r.
+    - rewrite Hnewk. apply NoDup_singleton. }
+  assert (HoF : owned F ≡ₚ (r :: owned_strs d) ++ owned_fl FL).
+  { unfold owned. by rewrite E1, owned_fl_cons. }
+  assert (HoF' : owned (set_data r d' F) ≡ₚ (r :: owned_strs d') ++ owned_fl FL).
+  { unfold owned. by rewrite (E2 d'), owned_fl_cons. }
+  assert (Hsd' : forall b, b ∈ owned_strs d' <-> b = nk \/ (b ∈ owned_strs d /\ b ∉ old_key d)).
+  { intros b. rewrite !owned_strs_split, Hnewk. unfold d'. rewrite is_ref_set_key_clear. cbn [rd_vstr rd_owned_key rd_set_key_type].
+    pose proof (wf_owned_nodup _ _ W) as NDo. rewrite HoF in NDo. apply NoDup_app in NDo as (N1 & _ & _).
+    apply NoDup_cons in N1 as [_ N1]. rewrite owned_strs_split in N1. apply NoDup_app in N1 as (_ & N12 & _).
+    rewrite !elem_of_app, elem_of_list_singleton. split.
+    - intros [Hb|Hb]; [right|by left]. split; [by left|]. by apply N12.
+    - intros [->|[[Hb|Hb] Hn]]; [by right|by left|done]. }
+  assert (NL2 : NoLeak h2 (set_data r d' F)).
+  { intros b Hb. unfold lib_live in Hb. apply elem_of_filter in Hb as [Hb1 Hb2]. cbn in Hb1, Hb2.
+    unfold hb in Hb1, Hb2. rewrite free_all_own in Hb1. apply free_all_live in Hb2 as [Hb2 Hb3]. unfold ha in Hb1, Hb2. cbn in Hb1, Hb2.
+    rewrite HoF'. destruct (decide (b = nk)) as [->|Hne].
+    - apply elem_of_app. left. right. apply Hsd'. by left.
+    - rewrite lookup_insert_ne in Hb1 by done.
+      assert (Hbo : b ∈ owned F) by (apply NL; apply elem_of_filter; split; [done|set_solver]).
+      rewrite HoF in Hbo. apply elem_of_app in Hbo as [Hbo|Hbo]; [|apply elem_of_app; by right].
+      apply elem_of_app. left. apply elem_of_cons in Hbo as [->|Hbo]; [by left|]. right. apply Hsd'. right. done. }
+  replace (Pos.succ nk) with (h_next h2) by (unfold h2, hb; cbn; by rewrite free_all_next).
+  replace (Datatypes.S (h_req h)) with (h_req h2) by (unfold h2, hb; cbn; by rewrite CoreRefineHistory.free_all_req).
+  refine (Abs2_build h h2 S _ _ HA (Cons_replace_item_in_object nv None (Some nb) (Some r) cs _ _ _ E K) W2 NL2 _ _).
+  - (* strings *)
+    rewrite <- Hstr. unfold h2, hb, ha. destruct (old_key_cases d) as [->|(k & -> & _)]; reflexivity.
+  - (* keys *)
+    assert (Hdel : forall b (s' : bytes), a_str S !! b = Some s' -> b ∉ old_key d ->
+              del_keys (old_key d) (<[nk := c]> (a_str S)) !! b = Some s').
+    { intros b s' Hb Hno. destruct (SI1 _ _ Hb) as [_ Hlt].
+      destruct (old_key_cases d) as [->|(k & Hk & _)]; cbn [del_keys].
+      - rewrite lookup_insert_ne; [done|unfold nk; lia].
+      - rewrite Hk in *. cbn [del_keys]. rewrite lookup_delete_ne by set_solver. rewrite lookup_insert_ne; [done|unfold nk; lia]. }
+    intros e b He Hb. unfold datas in He. rewrite (E2 d') in He. rewrite fmap_cons in He. apply elem_of_cons in He as [->|He].
+    + cbn in Hb. injection Hb as <-. split; [|unfold d'; cbn; by rewrite is_const_set_key_clear].
+      exists c. split; [|unfold has0, c; rewrite existsb_app; cbn; by rewrite orb_true_r].
+      assert (Hnk : nk ∉ old_key d).
+      { intros Hi. assert (nk ∈ owned F) by (rewrite HoF, owned_strs_split; set_solver).
+        exact (Pos.lt_irrefl _ (wf_fresh _ _ W _ H)). }
+      destruct (old_key_cases d) as [->|(k & Hk & _)]; cbn [del_keys]; [by rewrite lookup_insert|].
+      rewrite Hk in *. cbn [del_keys]. rewrite lookup_delete_ne by set_solver. by rewrite lookup_insert.
+    + apply elem_of_list_fmap in He as (e0 & -> & He0).
+      assert (He' : fdata e0 ∈ datas F) by (unfold datas; rewrite E1; apply elem_of_list_fmap; exists e0; split; [done|by right]).
+      destruct (KO _ b He' Hb) as [(s' & Hs' & Hz') Hc]. split; [|done]. exists s'. split; [|done].
+      apply Hdel; [done|]. intros Hko.
+      assert (Hkown : b ∈ owned F) by (rewrite HoF, owned_strs_split; set_solver).
+      destruct (is_const (fn_data e0)) eqn:Hce.
+      * destruct (SI2 b (Hc Hce)) as [Hf _]. rewrite (wf_owned_lib _ _ W _ Hkown) in Hf. done.
+      * pose proof (wf_owned_nodup _ _ W) as NDo. rewrite HoF in NDo. apply NoDup_app in NDo as (_ & N12 & _).
+        apply (N12 b); [rewrite owned_strs_split; set_solver|].
+        apply elem_of_owned_fl. exists e0. split; [done|]. right. unfold owned_strs. cbn in Hce, Hb. rewrite Hce, Hb.
+        apply elem_of_app. right. by left.
+Qed.
+
 (** * replace_item_in_object (cJSON_ReplaceItemInObject[CaseSensitive]): re-key, then replace via pointer *)
 Definition spec_replace_key3 (S : astate2) (object name replacement : ptr) (case_sensitive : bool) : astate2 * bool :=
   match object, name, replacement with
@@ -475,19 +586,24 @@ Definition spec_replace_key3 (S : astate2) (object name replacement : ptr) (case
           (S2, res_bool res)
       | _, _ => (S, false)
       end
+  | None, Some nb, Some r => (spec_rekey_only S nb r, false)
   | _, _, _ => (S, false)
   end.
 
 Definition pre_replace_key (S : astate2) (object name replacement : ptr) : Prop :=
   (replacement = None \/ name = None) \/
-  exists p r, object = Some p /\ replacement = Some r /\ movable_into (a_forest S) p r /\ name_ok S name.
+  (exists p r, object = Some p /\ replacement = Some r /\ movable_into (a_forest S) p r /\ name_ok S name) \/
+  (object = None /\ exists nb r, name = Some nb /\ replacement = Some r /\
+     is_Some (find_tree r (a_forest S)) /\ name_ok S (Some nb)).
 
 Lemma Step_replace_key S object name replacement cs :
   pre_replace_key S object name replacement ->
   Step (replace_item_in_object nv object name replacement cs) S
        (spec_replace_key3 S object name replacement cs).1 (spec_replace_key3 S object name replacement cs).2.
 Proof.
-  intros [Href|(p & r & -> & -> & (Hpr & tr & dp & csp & Hr & Hp & Hrf) & (nb & s & -> & Hs & Hz))].
+  intros [Href|[(p & r & -> & -> & (Hpr & tr & dp & csp & Hr & Hp & Hrf) & (nb & s & -> & Hs & Hz))|
+                (-> & nb & r & -> & -> & Hr & Hn)]].
+  3:{ cbn [spec_replace_key3 fst snd]. by apply Step_replace_null_object. }
   - assert (Hspec : spec_replace_key3 S object name replacement cs = (S, false)).
     { unfold spec_replace_key3. destruct object, name, replacement; try done; by destruct Href. }
     rewrite Hspec. apply Step_same. intros h _.
